@@ -7,6 +7,8 @@ import AC.ProgramX
   separated: returned index, or `en<i>` / `eo<i>` for the two boundscheck errors; snaps = program
   after each call joined with `;` (`_` = no call); final program; `Evaluate` (or `panic`);
   doubles; adds; `ReadCounts` (or `panic`); `Dependencies` as decimal integers (or `panic`).
+  Operands inside the program fields may be negative (a faulty builder that accepted them); such
+  lines get a spec verdict (`rejects-out-of-range`, `evaluates-without-failure`), never a parse error.
 * `c18 product <a> <b> <impl|panic> <unchanged01>`
 * `c18 plus <a> <x> <impl|panic> <unchanged01>` -/
 namespace AC.Drv
@@ -27,8 +29,19 @@ def showRes18 : Except Err Int → String
   | .error (.negative i) => s!"en{i}"
   | .error (.outOfBounds i) => s!"eo{i}"
 
-def pSnaps18 (s : String) : Option (List (List Op)) :=
-  if s = "_" then some [] else (s.splitOn ";").mapM pPairs
+/-- ops as the implementation reports them: a faulty builder may have accepted a negative operand -/
+abbrev IOp := Int × Int
+
+def pIOp18 (s : String) : Option IOp :=
+  match s.splitOn ":" with
+  | [a, b] => do pure ((← a.toInt?), (← b.toInt?))
+  | _ => none
+def pIProg18 := pList pIOp18
+
+def pSnaps18 (s : String) : Option (List (List IOp)) :=
+  if s = "_" then some [] else (s.splitOn ";").mapM pIProg18
+
+def natOp18 (o : Nat × Nat) : IOp := ((o.1 : Int), (o.2 : Int))
 
 def showSnaps18 (l : List (List Op)) : String :=
   if l.isEmpty then "_" else ";".intercalate (l.map showPairs)
@@ -39,8 +52,9 @@ def showOpt18 (f : α → String) : Option α → String
 
 /-- spec, written from the property text: walk the calls with the implementation's own snapshots -/
 structure Walk18 where
-  prev : List Op := []
-  errIff : Bool := true      -- error exactly for out-of-range operands
+  prev : List IOp := []
+  rejects : Bool := true     -- out-of-range operand: error returned and program unchanged
+  accepts : Bool := true     -- all operands in range: no error
   unch : Bool := true        -- program unchanged on error
   app : Bool := true         -- accepted call appends exactly the corresponding ops
   idx : Bool := true         -- accepted call returns the index of the new last element
@@ -52,23 +66,24 @@ structure Walk18 where
 
 def oor18 (L : Nat) (i : Int) : Bool := i < 0 || i > (L : Int)
 
-def walkStep18 (w : Walk18) (c : Call) (res : String) (snap : List Op) : Walk18 :=
+def walkStep18 (w : Walk18) (c : Call) (res : String) (snap : List IOp) : Walk18 :=
   let L := w.prev.length
   let isErr := res.startsWith "e"
-  let judge (bad : Bool) (ops : List Op) (ret : Nat) (w : Walk18) : Walk18 :=
-    let w := { w with errIff := w.errIff && (isErr == bad) }
+  let judge (bad : Bool) (ops : List IOp) (ret : Nat) (w : Walk18) : Walk18 :=
+    let w := { w with rejects := w.rejects && (!bad || (isErr && snap == w.prev)),
+                      accepts := w.accepts && (bad || !isErr) }
     if isErr then { w with unch := w.unch && snap == w.prev, rej := w.rej + 1 }
     else { w with app := w.app && snap == w.prev ++ ops, idx := w.idx && res == toString ret, acc := w.acc + 1 }
   let w := match c with
-    | .add i j => judge (oor18 L i || oor18 L j) [(i.toNat, j.toNat)] (L + 1) w
-    | .double i => judge (oor18 L i) [(i.toNat, i.toNat)] (L + 1) w
+    | .add i j => judge (oor18 L i || oor18 L j) [(i, j)] (L + 1) w
+    | .double i => judge (oor18 L i) [(i, i)] (L + 1) w
     | .shift i 0 => { w with sh0 := w.sh0 && res == toString i && snap == w.prev, zeroShift := true }
     | .shift i (s + 1) =>
-      let w := judge (oor18 L i) ((i.toNat, i.toNat) :: (List.range s).map (fun t => (L + 1 + t, L + 1 + t))) (L + s + 1) w
+      let w := judge (oor18 L i) ((i, i) :: (List.range s).map (fun t => natOp18 (L + 1 + t, L + 1 + t))) (L + s + 1) w
       { w with bigShift := w.bigShift || (s ≥ 1 && !isErr) }
   { w with prev := snap }
 
-def walk18 : Walk18 → List Call → List String → List (List Op) → Walk18
+def walk18 : Walk18 → List Call → List String → List (List IOp) → Walk18
   | w, c :: cs, r :: rs, s :: ss => walk18 (walkStep18 w c r s) cs rs ss
   | w, _, _, _ => w
 
@@ -95,8 +110,8 @@ def ascB18 (c : Chain) : Bool := (c.zip c.tail).all (fun p => p.1 < p.2)
 def handleC18 (f : List String) : Res :=
   match f with
   | ["calls", cs, rs, sn, fin, ch, db, ad, rd, dp] =>
-    match pCalls18 cs, pSnaps18 sn, pPairs fin with
-    | some calls, some snaps, some final =>
+    match pCalls18 cs, pSnaps18 sn, pIProg18 fin with
+    | some calls, some snaps, some ifinal =>
       let rl := if rs = "-" then [] else rs.splitOn ","
       let (mfin, mres) := runCalls [] calls
       let r : Res := {}
@@ -112,12 +127,17 @@ def handleC18 (f : List String) : Res :=
       let shape := rl.length == calls.length && snaps.length == calls.length
       let r := specIf "record-shape" shape r
       let w := walk18 {} calls rl snaps
-      let r := specIf "error-iff-out-of-range" w.errIff r
+      let r := specIf "rejects-out-of-range" w.rejects r
+      let r := specIf "accepts-in-range" w.accepts r
       let r := specIf "unchanged-on-error" w.unch r
       let r := specIf "appended-ops" w.app r
       let r := specIf "returned-index" w.idx r
       let r := specIf "shift0-documented" w.sh0 r
-      let r := specIf "final-is-last-snapshot" (final == w.prev) r
+      let r := specIf "final-is-last-snapshot" (ifinal == w.prev) r
+      let panicked := ch == "panic" || rd == "panic" || dp == "panic"
+      let r := specIf "evaluates-without-failure" (!panicked) r
+      let r := specIf "program-operands-nonnegative" (ifinal.all fun o => 0 ≤ o.1 && 0 ≤ o.2) r
+      let final : List Op := ifinal.map fun o => (o.1.toNat, o.2.toNat)
       let n := final.length
       let r := match pInts ch with
         | some c =>
@@ -127,7 +147,7 @@ def handleC18 (f : List String) : Res :=
           specIf "evaluate-sums" ((List.range n).all fun k =>
             let o := final.getD k (0, 0)
             o.1 < c.length && o.2 < c.length && ca.getD (k + 1) 0 == ca.getD o.1 0 + ca.getD o.2 0) r
-        | none => specIf "evaluate-no-failure" false r
+        | none => specIf "evaluates-without-failure" false r
       let r := match pNat db, pNat ad with
         | some d, some a => specIf "doubles+adds=len" (d + a == n) r
         | _, _ => specIf "counts-readable" false r
@@ -135,13 +155,13 @@ def handleC18 (f : List String) : Res :=
         | some reads =>
           specIf "readcounts" (reads.length == n + 1 && (List.range (n + 1)).all fun i =>
             reads.getD i 0 == final.countP (fun o => o.1 == i || o.2 == i)) r
-        | none => specIf "readcounts-no-failure" false r
+        | none => specIf "evaluates-without-failure" false r
       let r := match pNats dp with
         | some deps =>
           let pa := final.toArray
           specIf "dependencies-closure" (deps.length == n + 1 && (List.range (n + 1)).all fun k =>
             deps.getD k 0 == closure18 pa k) r
-        | none => specIf "dependencies-no-failure" false r
+        | none => specIf "evaluates-without-failure" false r
       let nt := (w.acc ≥ 2 && w.rej ≥ 1) || w.bigShift
       let lb := if n ≤ 2 then "0-2" else if n ≤ 8 then "3-8" else if n ≤ 40 then "9-40" else "41+"
       { r with nt := nt, tag := s!"calls,rej={bb (w.rej ≥ 1)},shift2={bb w.bigShift},shift0={bb w.zeroShift},len={lb}" }
